@@ -103,9 +103,9 @@ impl EndS {
 
 //@@ fn file=fe2o3-amqp/src/link/shared_inner.rs impl=`~impl<T>LinkEndpointInnerDetachforT` name=close_with_error
 //@@ ret Result<(), DetachError>
-//@@ subst `|_v0|` => `|_v0: DetachError|` rule=R5
-//@@ subst `|_v1|` => `|_v1: DetachError|` rule=R5
-//@@ subst `|_v2|` => `|_v2: DetachError|` rule=R5
+//@@ subst `|_v0|` => `|_v0: DetachError|` rule=optional-R5
+//@@ subst `|_v1|` => `|_v1: DetachError|` rule=optional-R5
+//@@ subst `|_v2|` => `|_v2: DetachError|` rule=optional-R5
 //@@ spec
     ensures
         (old(self).link.st is CloseReceived || old(self).link.st is DetachReceived) ==> ({
